@@ -249,8 +249,13 @@ def gen_populations(ctx):
     for _ in range(extra):
         n = r.randint(5, 12)
         kind = r.random()
-        if kind < 0.4:
+        if kind < 0.3:
             pops.append(tuple(float(r.randint(-3, 3)) for _ in range(n)))              # many ties
+        elif kind < 0.45:
+            # a converged swarm: costs that differ in the last digits only (relative 1e-9 .. 1 ulp) around a base - NOT ties: they must be ranked exactly
+            base = r.choice([1.0, 0.0, -7.5, 3e-12, 1e-19, 12345.678, 1e300])
+            step = r.choice([1e-9, 1e-12, 2.220446049250313e-16, 5e-324]) * (abs(base) if base else 1.0)
+            pops.append(tuple(base + r.randint(-3, 3) * step for _ in range(n)))
         elif kind < 0.8:
             pops.append(tuple(r.uniform(-10, 10) for _ in range(n)))
         else:
